@@ -18,3 +18,23 @@ claim("C04",
  "Static, exhaustive over the source: for every rule set and both error-policy values, decides the loop discipline of Execute, ExecuteWithStopTagDirect and the sorted selected variants (plus the error policy of the as-given pair): comparator direction of every sort of rule entities (10 sites), the order source of each loop (container list or a local slice sorted on all paths), the whole list is ranged, exactly one execution per iteration, the only exits are loop end / stop-on-error return / stop-tag break, failures are collected under continue-on-error, collected errors surface after the loop. Right level because order, exactly-once and the error policy are visible in the shape of one loop that every execution passes through.",
  "Trusted: go/types + go/ssa, sort.SliceStable. Does not evaluate rule bodies; does not prove the builder's incremental insertion keeps the list sorted (that is C08's clause).",
  "CFG path/guard analysis of the sequential rule loops (A3), table rule on sort comparators, typestate (sorted before ranged) over go/ssa")
+
+claim("C05",
+ "Static, for every goroutine interleaving: decides the fork/join shape of the 11 mix / inverse-mix / N-M functions (one worker per goroutine on a per-iteration copy of the loop element, Done on all paths, Add count equal to the goroutines started as a symbolic linear form, Wait on every path from the fan-out to any return / later execution / later fan-out / read of the error list, locked appends to the error list), the synchronous first/last rule and its partition with the fan-out slice, the N-M windows S[0:n) and S[n:n+m) with their parameter checks, the error policy of sorted stages and the gate between stages, and that every stage draws from a priority-ordered source. Right level: the barrier argument uses only the WaitGroup contract and program order, so it covers all schedules, which no finite set of runs can.",
+ "Trusted: go/types + go/ssa, sync.WaitGroup contract, sort.SliceStable. Not decided: fairness/timing; rule bodies.",
+ "fork/join pairing with symbolic length agreement (A4), CFG must-pass-through (barrier), guard analysis of stage policy, symbolic slice intervals for windows, over go/ssa")
+
+claim("C12",
+ "Static, for all rule sets and name lists: decides in the 11 ExecuteSelected* functions that the selected slice is built only from ok-edge hits of lookups of the caller's names, that a miss is never dereferenced, that nothing runs and an error is returned when nothing was selected (N-M: when a name is unknown or n+m != len(names)), that sorted variants sort on all paths and as-given variants never sort, and that every stage executes only elements of the selected slice (the whole of it for the plain variants). Right level: which rules run and in what order is decided by the shape of the selection loop, the sort call and the ranged slice.",
+ "Trusted: go/types + go/ssa, Go map lookup, sort.SliceStable. Partition/window details of the mix and N-M selected variants are decided under C05.",
+ "typestate (sorted / never sorted) and who-may-write analysis of the selected slice, guard analysis of the miss and empty edges, over go/ssa")
+
+claim("C13",
+ "Static, for every layering and interleaving: decides in ExecuteDAGModel the per-layer barrier (A4 with the enclosing layer loop's head as a barrier target), that the error list is tested after the join on every path to the next layer and a failure ends the call, that the per-layer slice is fresh per layer and filled from ok-edge hits of dag[i][j] for all i, j counted forward, that misses are skipped without dereference, and the result-map rules for this function. Right level: a missing Wait or a missing failure check is a missing node on a CFG path, visible without producing the schedule that exposes it.",
+ "Trusted: go/types + go/ssa, sync.WaitGroup contract. Not decided: timing.",
+ "fork/join + must-pass-through analysis (A4) with loop-head targets, counted-loop recognition, guard analysis, over go/ssa")
+
+claim("C14",
+ "Static, for all rule sets and tag positions: decides that the sorted stop-tag variants read the tag after each rule execution on every path to the next iteration and leave the loop at its normal exit, that the mix variant reads it after the first rule and gates every goroutine start on it, that each tagged function differs from its untagged sibling only by reads of the tag (branch-condition and call multisets), and that pool wrappers pass the caller's tag through. Right level: 'no further rule starts' is a reachability statement about the loop's CFG.",
+ "Trusted: go/types + go/ssa. Not decided: races on the host's own Stag value.",
+ "CFG must-pass-through / guard analysis (A3-T), sibling cross-check of condition and call multisets, argument identity, over go/ssa")
